@@ -519,6 +519,17 @@ impl RawRecords {
                 )
             })?;
         header.validate()?;
+        // Meta and data are not necessarily read here, but they should be fully present in the file:
+        // a record with a torn tail (e.g. after a crash in the middle of the write) is a corruption
+        let record_end = self
+            .current_offset
+            .saturating_add(self.record_header_size)
+            .saturating_add(header.meta_size())
+            .saturating_add(header.data_size());
+        if record_end > self.file.size() {
+            return Err(IOError::from(IOErrorKind::UnexpectedEof).into_bincode_if_unexpected_eof())
+                .with_context(|| format!("record at {} is truncated, expected end {}", self.current_offset, record_end));
+        }
         self.current_offset += self.record_header_size;
         self.current_offset += header.meta_size();
         let data = if read_data {
